@@ -1,0 +1,8 @@
+//go:build verif
+
+// Contracts for package s3err, read by /verif/govc. Comments only; compiled only with tag "verif".
+package s3err
+
+// GetAPIError is a lookup in a table that is written once at package initialisation.
+//@ func GetAPIError
+//@   pure
